@@ -124,6 +124,7 @@ func vfBackendConn(specs []vfSvcSpec) *grpc.ClientConn {
 // update), the request must have been served, and every live method's route must dispatch.
 func VerifH_conc_registration() {
 	defer vfCloseBackends()
+	vfRaceDetect()
 	vfPreemptions(vfBound(2, 3))
 	scenario := vfChoice(3)
 	fa, fb := vfFakeSvc(vfSvcA), vfFakeSvc(vfSvcB)
